@@ -458,6 +458,17 @@ class ExtrasMixin:
         ks = z3.Array(f"{r.sym}#order", z3.IntSort(), self.sort_of(r.ktype))
         return self.symdict_val(d, r, z3.Select(ks, j.t))
 
+    def spec_json_ok(self, node, frame):
+        v = self.eval(node.args[0], frame)
+        return VBool(_fn("json_ok", z3.StringSort(), z3.BoolSort())(v.t))
+
+    def spec_mv_ok(self, node, frame):
+        sch = self.eval(node.args[0], frame)
+        d = self.eval(node.args[1], frame)
+        # same term as the partial function collaborator builds: mv#ok(recv, arg)
+        recv = sch
+        return VBool(z3.Function("mv#ok", AnySort, AnySort, z3.BoolSort())(self.inject(recv), self.inject(d)))
+
     def spec_truthy(self, node, frame):
         return VBool(E.simp(self.truthy(self.eval(node.args[0], frame))))
 
